@@ -3,6 +3,8 @@ package rules
 
 import (
 	"fmt"
+	"os"
+	"time"
 	"runtime/debug"
 	"sort"
 
@@ -44,6 +46,10 @@ func Get(id string) PropFunc {
 // rule runs one rule body; a missing anchor or an analysis panic makes the rule UNDECIDED, never a pass.
 func rule(r *core.Report, id, text string, body func()) {
 	r.Rule(id, text)
+	if os.Getenv("F1LINT_TIMING") != "" {
+		t0 := time.Now()
+		defer func() { fmt.Fprintf(os.Stderr, "timing %s %.2fs\n", id, time.Since(t0).Seconds()) }()
+	}
 	defer func() {
 		if e := recover(); e != nil {
 			if ae, ok := e.(core.AnchorError); ok {
